@@ -192,4 +192,4 @@ func H_C14_emptymmap() { hC14on(fs.OSMMap, "c14emmap", 2, 2, 0) }
 // (munmap) is a fault obligation
 func H_C14_mmap() { hC14on(fs.OSMMap, "c14mmap", 2, 2, 2) }
 func H_C14_os()   { hC14on(fs.OS, "c14os", 2, 2, 2) }
-func H_C14_t() { hC14(2, 3, 3) }
+func H_C14_t()    { hC14(2, 3, 3) }
